@@ -50,7 +50,7 @@ func (s *Slot) Check(ctx *base.EntryContext) *base.TokenResult {
 			continue
 		}
 		if r.Status() == base.ResultStatusBlocked {
-			return r
+			return blockedByRuleInForce(tc, r)
 		}
 		if r.Status() == base.ResultStatusShouldWait {
 			if nanosToWait := r.NanosToWait(); nanosToWait > 0 {
